@@ -1028,3 +1028,91 @@ def run_autoreload(prop, tier, seed):
                           functions=['AutoReloader::acquire_env', 'Notifier::request_reload'])
     ev['wall_s'] = round(time.time() - t0, 1)
     return ev
+
+
+# ---------------------------------------------------------------------------------------------
+# Context::load (C03): within one frame the frame's own locals are consulted before the macro closure and the
+# frame's context object - an assignment inside a macro shadows the enclosed variable of the same name
+# ---------------------------------------------------------------------------------------------
+def check_lookup_order(fn):
+    adj, preds = cfg(fn)
+    s_ = z3.Solver()
+    s_.set('timeout', 30000)
+    D = {b: z3.Int('Q_%s' % b) for b in fn['blocks'] if not fn['blocks'][b]['cleanup']}
+    s_.add(D['bb0'] == 0)
+    n = nl = nc = 0
+    RX_NEXT = r'as Iterator>::next\('
+    RX_LOCALS = r'^BTreeMap::<&str, value::Value>::get::<str>\('
+    RX_LATER = r'core::slice::<impl \[BTreeMap<&str, value::Value>\]>::get::<usize>\(|value::Value::get_attr_fast\('
+    for bid in adj:
+        _, callee = call_of(fn['blocks'][bid]['term'])
+        is_next = bool(callee and re.search(RX_NEXT, callee))
+        is_locals = bool(callee and re.search(RX_LOCALS, callee))
+        if callee and re.search(RX_LATER, callee):
+            s_.add(D[bid] == 1)
+            nc += 1
+        nl += is_locals
+        for label, tgt in adj[bid]:
+            if fn['blocks'][tgt]['term'] == 'return;':
+                continue
+            _, tcallee = call_of(fn['blocks'][tgt]['term'])
+            if tcallee and re.search(RX_NEXT, tcallee) and not is_next:
+                n += 1
+                continue
+            if label == 'ok' and is_next:
+                s_.add(D[tgt] == 0)
+            elif label == 'ok' and is_locals:
+                s_.add(D[tgt] == 1)
+            else:
+                s_.add(D[tgt] == D[bid])
+            n += 1
+    t0 = time.time()
+    r = s_.check()
+    dt = time.time() - t0
+    stats = dict(blocks=len(D), edges=n, locals_lookups=nl, later_lookups=nc)
+    if nl == 0 or nc == 0:
+        return 'unknown', dict(kind='Context::load: lookups not recognised (locals=%d, closure/context=%d)' % (nl, nc)), dt, stats
+    if r == z3.sat:
+        return 'sat', None, dt, stats
+    if r != z3.unsat:
+        return str(r), None, dt, stats
+    return 'unsat', dict(kind='the closure or the frame context is consulted on a path on which the frame\'s own locals were not looked at first'), dt, stats
+
+
+def run_lookup_order(prop, tier, seed):
+    t0 = time.time()
+    ev = dict(engine='M', violations=[], known_hits=[], problems=[], coverage={})
+    try:
+        mir = dump_mir(REPO, os.path.join(BUILD, 'mir'))
+    except MirError as e:
+        ev['problems'].append('engine M: %s' % e)
+        return ev
+    text = function_text(mir, r'^fn context::<impl at [^>]*>::load\(')
+    if text is None:
+        ev['problems'].append('engine M: Context::load not found in the MIR dump')
+        return ev
+    verdict, info, dt, stats = check_lookup_order(parse_function(text))
+    err = build_restore()
+    if err:
+        ev['problems'].append('engine M: native scenario tool did not build: ' + err[-300:])
+        return ev
+    scen = [s for s in run_restore() if s['function'] == 'context_load']
+    failing = [s for s in scen if not s['ok']]
+    r = dict(function='Context::load', resource='lookup_order', verdict=verdict, z3_s=round(dt, 3), conflict=(info or {}).get('kind'), **stats)
+    if verdict == 'unsat':
+        if failing:
+            rp = os.path.join(nativelib.replay_dir(), '%s-M-context_load.json' % prop)
+            json.dump(dict(engine='M', property=prop, function='context_load', mir_findings=[r], scenarios=failing,
+                           how='bin/check %s --replay %s' % (prop, rp)), open(rp, 'w'), indent=1)
+            ev['violations'].append(dict(replay=rp, failed=[dict(desc='Context::load: %s; native scenario %s: %s' % (
+                r['conflict'], failing[0]['scenario'], failing[0]['detail'][:200]), loc='minijinja/src/vm/context.rs Context::load (MIR)')]))
+        else:
+            ev['problems'].append('engine M: Context::load: %s, but no native scenario misbehaves' % r['conflict'])
+    elif verdict != 'sat':
+        ev['problems'].append('engine M: Context::load: %s %s' % (verdict, r.get('conflict') or ''))
+    elif failing:
+        ev['problems'].append('engine M: native scenario %s misbehaves (%s) although the lookup order check holds' % (failing[0]['scenario'], failing[0]['detail'][:200]))
+    log('[%s] engine M (Context::load MIR): lookup_order=%s; %d native scenarios, %d misbehaving' % (prop, verdict, len(scen), len(failing)))
+    ev['coverage'] = dict(queries=1, results=[r], native_scenarios=len(scen), native_scenarios_failing=len(failing), functions=['Context::load'])
+    ev['wall_s'] = round(time.time() - t0, 1)
+    return ev
